@@ -22,4 +22,10 @@ HARNESSES.append(
          configs=[{"KERNEL": 1, "OFF": 12}],
          unwind=4, unwindset=["main.%d:50" % i for i in range(4)], backends=["default", "kissat"],
          bound="block of 48 bytes, every byte symbolic (entry at offset 12 valid per the caller's test)"))
-MANIFEST = {"text": "", "note": ""}
+MANIFEST = {
+    "text": "Kernel-level slice (partial). Detector completeness against an independent format predicate, bounded-exhaustive: every extent header "
+            "violating (magic, entries <= max, max entries fit the node) is rejected by ext2fs_extent_header_verify for every node size; every "
+            "first/second directory entry that is not '.'(self) / '..'(non-zero inode) makes check_dot / check_dotdot raise a problem, and with the "
+            "answer 'no' they modify nothing. Completeness of a whole e2fsck -fn run is outside.",
+    "note": "Trusted: CBMC's C semantics, the harness's restatement of the on-disk format. ext2fs_check_desc not built.",
+}
